@@ -81,10 +81,13 @@ ADD = {
  "C10": " Further fault kinds: the client goes away at the n-th storage call (context cancelled), errors whose text is long and multi-byte / full of format verbs / full of markup; every scenario is repeated with parameters and headers nobody asked for; the exported Readiness handler is driven with probe lists of 1..4 probes with every non-empty failing subset.",
  "C12": " Queries whose requester goes away at the n-th storage call, requesters whose own metadata says WantAssertionsSigned=false, and queries of nobody that name a registered requester in the subject's qualifiers are included.",
  "C13": " Instants at the ends of the representable range (year 1, the Unix epoch, 9999), RelayState pairs no encoder writes (raw ';', dangling '%') and requests without Issuer element that name a registered requester elsewhere are included.",
- "C14": " Requests that are megabytes long themselves (padding compressing about 20:1, forms only) are included; every request runs under a cancellable context as under net/http.",
- "C15": " After dozens of requests of other sessions have failed at one storage call (four at a time), healthy sessions must still be answered with Success.",
+ "C14": " A neighbouring provider and service provider in the same process are configured with the most generous limits the configuration structs of the tree offer (integer fields named like a limit, found by reflection). Requests that are megabytes long themselves (padding compressing about 20:1, forms only) are included; every request runs under a cancellable context as under net/http.",
+ "C15": " After dozens of requests of other sessions have failed at one storage call (four at a time), healthy sessions must still be answered with Success; half of the rounds use a time layout without fractions of a second.",
  "C17": " The media type the page is sent with has to be text/html; a page whose first write stalls while another page is produced on the same provider, and 64 KiB runs of characters that are written as several, are included.",
- "C19": " Field lines ending in an empty forwarded-pair, three-name header lists and malformed headers that name no host at all (precise clause) are included.",
+ "C11": " Insecure mode and a run-time change of the configured signing requirement (advertisement and enforcement must still agree) are included.",
+ "C18": " Eight logins, metadata requests and attribute queries are built side by side on one provider (each Success decodes to its own user's values); attribute queries failing with unusual error texts must not produce a body announced as XML that is not well-formed; word-like codec inputs.",
+ "C20": " A share of the chains is evaluated while the process logs at debug / trace level.",
+ "C19": " Concurrent derivation with signed metadata (endpoint locations judged). Field lines ending in an empty forwarded-pair, three-name header lists and malformed headers that name no host at all (precise clause) are included.",
 }
 
 def main():
